@@ -10,6 +10,7 @@ in both branches, straight segment normalisation for distinct end points.
    1e12 distances in watchdogged worker processes; its findings are recorded by input class. -/
 -/
 import MagpyVerif.Lemmas.KernReal
+import MagpyVerif.Lemmas.SegmentBS
 namespace MagpyVerif.C15
 open MagpyVerif MagpyVerif.Kern
 
@@ -44,5 +45,19 @@ theorem segment_length_pos (p1 p2 : V3 ℝ) (h : p1.x ≠ p2.x ∨ p1.y ≠ p2.y
   · exact Or.inl (sub_ne_zero.mpr h)
   · exact Or.inr (Or.inl (sub_ne_zero.mpr h))
   · exact Or.inr (Or.inr (sub_ne_zero.mpr h))
+
+
+/-- straight segment, observer off the carrier line (the rows the wrapper's `mask1` lets through):
+every divisor of the closed form — segment length, distance from the line `norm_o4`, norm of the
+direction vector `norm_cros`, distances to the end points `norm_o1`, `norm_o2` — is positive, so
+in exact arithmetic the kernel is defined on all of its general branch -/
+theorem segment_defined_off_line (p1 p2 po : V3 ℝ)
+    (hoff : 0 < SegBS.nsq (V3.cross (p2 - p1) (po - p1))) :
+    let L := Kern.norm (p1 - p2)
+    let q1 := vd p1 L; let q2 := vd p2 L; let qo := vd po L
+    let p4 := q1 + vs (V3.dot (qo - q1) (q1 - q2)) (q1 - q2)
+    0 < L ∧ 0 < Kern.norm (qo - p4) ∧ 0 < Kern.norm (V3.cross (q2 - q1) (qo - p4)) ∧
+      0 < Kern.norm (qo - q1) ∧ 0 < Kern.norm (qo - q2) :=
+  SegBS.segment_divisors p1 p2 po hoff
 
 end MagpyVerif.C15
